@@ -34,6 +34,8 @@ HEADER_LINES = [
     "accept: image/gif,text/vnd.wap.wml;q=0.5", "ACCEPT: text/html", "Accept: text/vnd.wap.wmlx, */*",
     "Accept: xtext/vnd.wap.wml", "x-wap-profile: http://x/p", "X-Wap-Profile: \"p\"", "x-up-devcap-max-pdu: 1024",
     "Host: h", "User-Agent: Nokia", "Accept", "x-wap-profile", ": x", "Accept : text/vnd.wap.wml",
+    # device headers that are present with an empty / blank / falsy-looking value (the documented test is presence)
+    "x-wap-profile:", "X-Wap-Profile: ", "x-up-devcap-max-pdu:   ", "x-up-devcap-max-pdu: 0", "Accept:", "Accept: ",
 ]
 
 
